@@ -85,7 +85,9 @@ func runC06(c *Ctx) {
 			done[vc.FuncName(fn)] = true
 		}
 	}
-	pk := map[string]bool{"cl": true}
+	// gi is in the quick tier as well: its with-... forms evaluate sub-forms of their first argument and must keep
+	// the values out of that form (a value stored there is what the next evaluation of the same code finds)
+	pk := map[string]bool{"cl": true, "gi": true}
 	if c.Tier == "thorough" {
 		for _, p := range c09Pkgs {
 			pk[p] = true
@@ -121,7 +123,7 @@ func runC06(c *Ctx) {
 	c.addResults(resRest)
 	c.Extra["package_wide_frame_functions"] = len(rest)
 	c.Covers = func(name string) bool {
-		return c.Tier == "thorough" || strings.HasPrefix(name, "cl.") || strings.HasPrefix(name, "slip.") || strings.HasPrefix(name, "generic.") || strings.HasPrefix(name, "repl.")
+		return c.Tier == "thorough" || strings.HasPrefix(name, "cl.") || strings.HasPrefix(name, "gi.") || strings.HasPrefix(name, "slip.") || strings.HasPrefix(name, "generic.") || strings.HasPrefix(name, "repl.")
 	}
 	// explicit sequence contracts tagged C06 (insertMethod, Stash.clear)
 	runContracts(c, cs, vc.Options{Safety: false, InlineDepth: 2, InlineSize: 80}, so)
